@@ -2,6 +2,7 @@ package c02
 
 import (
 	"fmt"
+	"regexp"
 	"strings"
 
 	"github.com/robertkrimen/otto"
@@ -71,11 +72,7 @@ var findings = []finding{
 		return wCallAtRest(`Array.prototype.join`, `(function(){var a=[1];a[1]=a;return a})()`)
 	}},
 	{"C02-JSON-STRINGIFY-DEPTH", func() string { return wRun(`JSON.stringify(1, Array)`) }},
-	{"C02-GOBRIDGE-RAW-ERROR", func() string { return wRun(`__gomapint["abc"] = "x"`) }},
 	{"C02-GOMAP-NIL", func() string { return wRun(`__gonilmap.a = 1`) }},
-	{"C02-GOSLICE-SETLEN", func() string { return wRun(`__goslice.length = 1`) }},
-	{"C02-GOSLICE-SET-NIL", func() string { return wRun(`__gosliceany[0] = undefined`) }},
-	{"C02-GOSLICE-DELETE", func() string { return wRun(`delete __goslice.foo`) }},
 	{"C02-EXPORT-UNGUARDED", func() string {
 		vm := newVM(64, 100_000)
 		v, _ := vm.Run(`({get a(){throw new Error("g")}})`)
@@ -224,20 +221,11 @@ func excludedCall(fn fnEntry, recv kind, ap argPlan, ks []kind, way int) string 
 	target := func(pred func(kind) bool) bool {
 		return (writesThis && pred(this)) || (writesArg0 && has0 && pred(a0))
 	}
-	if known("C02-GOBRIDGE-RAW-ERROR") && target(func(k kind) bool { return isOneOf(k.Name, "go-map-int", "go-nil-map", "go-slice", "go-array") }) {
-		return "C02-GOBRIDGE-RAW-ERROR"
-	}
 	if known("C02-GOMAP-NIL") && target(func(k kind) bool { return k.Name == "go-nil-map" }) {
 		return "C02-GOMAP-NIL"
 	}
 	if known("C02-EXPORT-CYCLE") && target(func(k kind) bool { return k.Name == "go-map" }) && (anyArg(cyclicKind) || cyclicKind(this)) {
 		return "C02-EXPORT-CYCLE" // a value stored into map[string]interface{} is exported first
-	}
-	if known("C02-GOSLICE-SETLEN") && target(func(k kind) bool { return isOneOf(k.Name, "go-slice", "go-slice-any", "go-array") }) {
-		return "C02-GOSLICE-SETLEN"
-	}
-	if known("C02-GOSLICE-SET-NIL") && target(func(k kind) bool { return k.Name == "go-slice-any" }) {
-		return "C02-GOSLICE-SET-NIL"
 	}
 	return ""
 }
@@ -257,14 +245,8 @@ func excludedAccess(accessor string, k kind) string {
 		return "C02-NATIVE-RECURSION-AT-REST"
 	}
 	if strings.HasPrefix(accessor, "Object.Set(") {
-		if known("C02-GOBRIDGE-RAW-ERROR") && isOneOf(k.Name, "go-map-int", "go-nil-map", "go-slice", "go-array") {
-			return "C02-GOBRIDGE-RAW-ERROR"
-		}
 		if known("C02-GOMAP-NIL") && k.Name == "go-nil-map" {
 			return "C02-GOMAP-NIL"
-		}
-		if known("C02-GOSLICE-SETLEN") && isOneOf(k.Name, "go-slice", "go-slice-any", "go-array") && strings.Contains(accessor, `"length"`) {
-			return "C02-GOSLICE-SETLEN"
 		}
 	}
 	return ""
@@ -272,11 +254,12 @@ func excludedAccess(accessor string, k kind) string {
 
 func excludedRecur(c recurCase) string { return "" }
 
-// excludedSource: one label nested deeper than 300 (C02-PARSER-DUP-LABEL).
+// excludedSource: a piece that contains a label and is repeated more than 100 times
+// (C02-PARSER-DUP-LABEL: n equal nested labels cost n²/2 errors and cubic time).
 func excludedSource(c sourceCase) string {
 	if known("C02-PARSER-DUP-LABEL") {
 		for _, p := range c.Pieces {
-			if p.N > 300 && labelOpener(p.T) {
+			if p.N > 100 && labelRe.MatchString(p.T) {
 				return "C02-PARSER-DUP-LABEL"
 			}
 		}
@@ -284,10 +267,7 @@ func excludedSource(c sourceCase) string {
 	return ""
 }
 
-func labelOpener(t string) bool {
-	t = strings.TrimSpace(t)
-	return t == "{a:" || t == "a:" || t == "a:a:"
-}
+var labelRe = regexp.MustCompile(`(^|[{};\s])[A-Za-z_$][\w$]*\s*:`)
 
 // skipOttoCallNil: Otto.Call(src, nil) indexes body[0] of the program parsed from src+"()"; when that
 // program has no statement (src ends in a line comment that swallows the parentheses, …) it panics.
